@@ -31,8 +31,8 @@ IsBig(x) == /\ x.neg \in BOOLEAN
 RECURSIVE MagOfNat(_)
 MagOfNat(n) == IF n = 0 THEN <<>> ELSE <<n % Base>> \o MagOfNat(n \div Base)
 FromInt(n) == IF n < 0 THEN [neg |-> TRUE, mag |-> MagOfNat(-n)] ELSE [neg |-> FALSE, mag |-> MagOfNat(n)]
-One == FromInt(1)
-Two == FromInt(2)
+One == [neg |-> FALSE, mag |-> <<1>>]
+Two == [neg |-> FALSE, mag |-> <<2>>]
 \* value of a number known to be small (at most two limbs)
 SmallVal(x) == LET m == x.mag
                    v == IF m = <<>> THEN 0 ELSE IF Len(m) = 1 THEN m[1] ELSE m[1] + Base * m[2]
@@ -80,8 +80,9 @@ DivSmallFrom(a, d, i, r) ==
        IN <<Append(rest[1], cur \div d), rest[2]>>
 DivModSmallMag(a, d) == LET r == DivSmallFrom(a, d, Len(a), 0) IN <<StripHi(r[1]), r[2]>>
 
-\* long division: one base-10^4 quotient limb at a time, each found by bisection between the bounds the leading
-\* limbs give (largest q with q * b <= r)
+\* long division: one base-10^4 quotient limb at a time.  The limb q is the largest with q * b <= cur; the leading
+\* limbs bound it (top \div (t + 1) <= q <= top \div t, t the divisor's leading limb) and bisection finds it.  Both
+\* numbers are first scaled so that t >= Base / 2, which makes the two bounds at most a few units apart.
 RECURSIVE QDigit(_, _, _, _)
 QDigit(r, b, lo, hi) ==
   IF lo >= hi THEN lo
@@ -104,7 +105,10 @@ DivFrom(a, b, i, r) ==
 DivModMag(a, b) ==
   IF CmpMag(a, b) < 0 THEN <<<<>>, a>>
   ELSE IF Len(b) = 1 THEN (LET r == DivModSmallMag(a, b[1]) IN <<r[1], MagOfNat(r[2])>>)
-  ELSE LET r == DivFrom(a, b, Len(a), <<>>) IN <<StripHi(r[1]), r[2]>>
+  ELSE LET d == Base \div (b[Len(b)] + 1)                                        \* a = q b + r  <=>  d a = q (d b) + d r
+           r == IF d = 1 THEN DivFrom(a, b, Len(a), <<>>)
+                ELSE LET sa == MulSmallMag(a, d) IN DivFrom(sa, MulSmallMag(b, d), Len(sa), <<>>)
+       IN <<StripHi(r[1]), IF d = 1 THEN r[2] ELSE DivModSmallMag(r[2], d)[1]>>
 
 \* ---- signed numbers ---------------------------------------------------------------------------
 Neg(x) == Mk(~x.neg, x.mag)
@@ -136,7 +140,27 @@ IsEven(x) == x.mag = <<>> \/ x.mag[1] % 2 = 0               \* the base is even
 \* x ** n for a small natural n
 RECURSIVE Pow(_, _)
 Pow(x, n) == IF n = 0 THEN One ELSE Mul(x, Pow(x, n - 1))
-Pow2(n) == Pow(Two, n)
+\* 2^0 .. 2^64 as literal magnitudes (TLC re-evaluates a constant defined through a recursive operator at every
+\* use; the table is checked against doubling and against Pow(Two, n) in ArithMC)
+Pow2Mags == <<
+  <<1>>, <<2>>, <<4>>, <<8>>,
+  <<16>>, <<32>>, <<64>>, <<128>>,
+  <<256>>, <<512>>, <<1024>>, <<2048>>,
+  <<4096>>, <<8192>>, <<6384, 1>>, <<2768, 3>>,
+  <<5536, 6>>, <<1072, 13>>, <<2144, 26>>, <<4288, 52>>,
+  <<8576, 104>>, <<7152, 209>>, <<4304, 419>>, <<8608, 838>>,
+  <<7216, 1677>>, <<4432, 3355>>, <<8864, 6710>>, <<7728, 3421, 1>>,
+  <<5456, 6843, 2>>, <<912, 3687, 5>>, <<1824, 7374, 10>>, <<3648, 4748, 21>>,
+  <<7296, 9496, 42>>, <<4592, 8993, 85>>, <<9184, 7986, 171>>, <<8368, 5973, 343>>,
+  <<6736, 1947, 687>>, <<3472, 3895, 1374>>, <<6944, 7790, 2748>>, <<3888, 5581, 5497>>,
+  <<7776, 1162, 995, 1>>, <<5552, 2325, 1990, 2>>, <<1104, 4651, 3980, 4>>, <<2208, 9302, 7960, 8>>,
+  <<4416, 8604, 5921, 17>>, <<8832, 7208, 1843, 35>>, <<7664, 4417, 3687, 70>>, <<5328, 8835, 7374, 140>>,
+  <<656, 7671, 4749, 281>>, <<1312, 5342, 9499, 562>>, <<2624, 684, 8999, 1125>>, <<5248, 1368, 7998, 2251>>,
+  <<496, 2737, 5996, 4503>>, <<992, 5474, 1992, 9007>>, <<1984, 948, 3985, 8014, 1>>, <<3968, 1896, 7970, 6028, 3>>,
+  <<7936, 3792, 5940, 2057, 7>>, <<5872, 7585, 1880, 4115, 14>>, <<1744, 5171, 3761, 8230, 28>>, <<3488, 342, 7523, 6460, 57>>,
+  <<6976, 684, 5046, 2921, 115>>, <<3952, 1369, 92, 5843, 230>>, <<7904, 2738, 184, 1686, 461>>, <<5808, 5477, 368, 3372, 922>>,
+  <<1616, 955, 737, 6744, 1844>> >>
+Pow2(n) == [neg |-> FALSE, mag |-> Pow2Mags[n + 1]]          \* n in 0..64
 
 \* ---- decimal text -----------------------------------------------------------------------------
 DigitChars == <<"0", "1", "2", "3", "4", "5", "6", "7", "8", "9">>
@@ -162,13 +186,15 @@ ToDigits(x) == IF x.mag = <<>> THEN <<"0">>
                ELSE (IF x.neg THEN <<"-">> ELSE <<>>) \o StripLeadingZeros(DigitsOfMag(x.mag, Len(x.mag)))
 
 \* ---- the 64-bit range ---------------------------------------------------------------------------
-TwoTo63 == Pow2(63)
-TwoTo64 == Pow2(64)
-MaxInt64 == Sub(TwoTo63, One)
-MinInt64 == Neg(TwoTo63)
+TwoTo63 == [neg |-> FALSE, mag |-> <<5808, 5477, 368, 3372, 922>>]
+TwoTo64 == [neg |-> FALSE, mag |-> <<1616, 955, 737, 6744, 1844>>]
+MaxInt64 == [neg |-> FALSE, mag |-> <<5807, 5477, 368, 3372, 922>>]
+MinInt64 == [neg |-> TRUE, mag |-> <<5808, 5477, 368, 3372, 922>>]
 Fits64(x) == Cmp(x, MinInt64) >= 0 /\ Cmp(x, MaxInt64) <= 0
 \* the 64-bit two's-complement reading of any integer: the representative of x modulo 2^64 in -2^63 .. 2^63-1
-Unsigned64(x) == ModFloor(x, TwoTo64)
+Unsigned64(x) == IF ~x.neg /\ CmpMag(x.mag, TwoTo64.mag) < 0 THEN x                 \* (the first two arms are short cuts)
+                 ELSE IF x.neg /\ CmpMag(x.mag, TwoTo64.mag) <= 0 THEN Add(x, TwoTo64)
+                 ELSE ModFloor(x, TwoTo64)
 Wrap64(x) == IF Fits64(x) THEN x
              ELSE LET u == Unsigned64(x) IN IF Cmp(u, TwoTo63) >= 0 THEN Sub(u, TwoTo64) ELSE u
 =============================================================================
